@@ -225,6 +225,7 @@ Section Main.
   Notation eobj := (eobj c u ign).
   Notation e_attr := (e_attr c u ign).
   Notation e_field := (e_field c u).
+  Notation e_items := (e_items c u).
   Notation e_item := (e_item c u).
   Notation e_prim := (e_prim c u).
   Notation e_data := (e_data c u).
@@ -327,6 +328,24 @@ Section Main.
       /\ forall m, u_meta u cl = Some m -> forall Q objs W rest,
            prun (mk_pstate (NElement (mk_enode m attrs ns (length objs) false None None [] []) :: Q) objs W) (inner ++ rest)
            = prun (mk_pstate Q (objs ++ [(Some (elem_name qn cl), o)]) W) rest.
+
+  Lemma reads_content_elems ekids text kes :
+    (forall e, In e ekids -> exists q a k, e = EElem q a k) ->
+    match ekids with
+    | [] => text = None /\ kes = []
+    | [EData atoms] => exists s, atoms_text atoms = Some s /\ s <> [] /\ text = Some s /\ kes = []
+    | _ =>
+        blank_o text = true
+        /\ (fix rk (ks : list XmlNs.enode) (kes : list pevent) {struct ks} : Prop :=
+              match ks with
+              | [] => kes = []
+              | k :: r => exists a b, kes = a ++ b /\ reads k a /\ rk r b
+              end) ekids kes
+    end -> reads_kids ekids kes.
+  Proof.
+    intros Hall H. destruct ekids as [|e1 r]; [destruct H as [_ ->]; reflexivity|].
+    destruct (Hall e1 (or_introl eq_refl)) as [q [a [k ->]]]. destruct H as [_ H]. exact H.
+  Qed.
 
   (* ---------------------------------------------------------------- one object *)
   Section Obj.
@@ -534,32 +553,77 @@ Section Main.
     Qed.
 
     Lemma elem_var_facts var : is_elem_var var ->
-      v_init var = true /\ v_is KWildcard var = false /\ v_wrapper_qname var = None /\ kind_elem var.
+      v_init var = true /\ v_is KWildcard var = false /\ True /\ kind_elem var.
     Proof.
       intros [Hw _]. destruct (wf_elem_inv var Hw) as [Hk [Hc _]].
       destruct (var_common_inv var Hc) as [Hi [_ [_ [_ [_ [_ [Hwr _]]]]]]].
       destruct Hk as [Hk1 [Hk2 [Hk3 Hk4]]]. repeat split; assumption.
     Qed.
 
-    (* one child object of a list field *)
-    Lemma bind_object_list var f y rest p p' ws :
-      is_elem_var var -> v_factory var = Some f ->
-      coll_append (v_name var) (Some f) y p = ROk p' ->
-      bind_objects_loop c m ((Some (v_qname var), y) :: rest) p [] ws = bind_objects_loop c m rest p' [] ws.
+    (* ---- the wrappers queue *)
+    Lemma wrappers_pop_none q wr : ~ In q (map fst wr) -> wrappers_pop q wr = (None, wr).
     Proof.
-      intros Hv Hf Hc. destruct (elem_var_facts var Hv) as [Hi [Hw [Hwr _]]].
-      cbn [bind_objects_loop wrappers_pop find_children_opt rbind]. rewrite (find_children_elem var Hv).
-      cbn [bind_object_loop]. unfold wrapper_mismatch. cbn [truthy_str]. rewrite Hw.
+      induction wr as [|[k x] r IHr]; intros H; [reflexivity|]. cbn [wrappers_pop].
+      destruct (str_eqb_spec q k) as [->|_]; [exfalso; apply H; left; reflexivity|].
+      rewrite IHr; [reflexivity|]. intros Hi. apply H. right; exact Hi.
+    Qed.
+
+    Lemma wrappers_pop_at q w x a b : ~ In q (map fst a) ->
+      wrappers_pop q (a ++ (q, w :: x) :: b) = (Some w, a ++ (q, x) :: b).
+    Proof.
+      induction a as [|[k y] r IHr]; intros H; cbn [app wrappers_pop].
+      - rewrite str_eqb_refl. reflexivity.
+      - destruct (str_eqb_spec q k) as [->|_]; [exfalso; apply H; left; reflexivity|].
+        rewrite IHr; [reflexivity|]. intros Hi. apply H. right; exact Hi.
+    Qed.
+
+    Lemma wrappers_push_fresh q w wr : ~ In q (map fst wr) -> wrappers_push q w wr = wr ++ [(q, [w])].
+    Proof.
+      induction wr as [|[k x] r IHr]; intros H; [reflexivity|]. cbn [wrappers_push app].
+      destruct (str_eqb_spec q k) as [->|_]; [exfalso; apply H; left; reflexivity|].
+      rewrite IHr; [reflexivity|]. intros Hi. apply H. right; exact Hi.
+    Qed.
+
+    Lemma wrappers_push_at q w x a b : ~ In q (map fst a) ->
+      wrappers_push q w (a ++ (q, x) :: b) = a ++ (q, x ++ [w]) :: b.
+    Proof.
+      induction a as [|[k y] r IHr]; intros H; cbn [app wrappers_push].
+      - rewrite str_eqb_refl. reflexivity.
+      - destruct (str_eqb_spec q k) as [->|_]; [exfalso; apply H; left; reflexivity|].
+        rewrite IHr; [reflexivity|]. intros Hi. apply H. right; exact Hi.
+    Qed.
+
+    (* the wrapper context of a child: directly below the class element, or inside the wrapper element *)
+    Definition wrap_agrees (var : xvar) (wo : option qname) : Prop :=
+      match wo with Some w => v_wrapper_qname var = Some w /\ w <> [] | None => True end.
+
+    Lemma wrapper_mismatch_no var wo : wrap_agrees var wo -> wrapper_mismatch wo var = false.
+    Proof.
+      unfold wrapper_mismatch, wrap_agrees. destruct wo as [w|]; [|reflexivity]. intros [Hw Hne].
+      destruct w as [|ch w']; [congruence|]. cbn [truthy_str]. rewrite Hw. cbn [ostr_eqb opt_eqb]. rewrite str_eqb_refl. reflexivity.
+    Qed.
+
+    (* one child object of a list field *)
+    Lemma bind_object_list var f y rest p p' wr wr' wo ws :
+      is_elem_var var -> v_factory var = Some f ->
+      wrappers_pop (v_qname var) wr = (wo, wr') -> wrap_agrees var wo ->
+      coll_append (v_name var) (Some f) y p = ROk p' ->
+      bind_objects_loop c m ((Some (v_qname var), y) :: rest) p wr ws = bind_objects_loop c m rest p' wr' ws.
+    Proof.
+      intros Hv Hf Hpop Hag Hc. destruct (elem_var_facts var Hv) as [Hi [Hw _]].
+      cbn [bind_objects_loop find_children_opt rbind]. rewrite Hpop. cbn [rbind]. rewrite (find_children_elem var Hv).
+      cbn [bind_object_loop]. rewrite (wrapper_mismatch_no var wo Hag). rewrite Hw.
       unfold bind_var. rewrite Hi. unfold v_list_element. rewrite Hf, Hc. reflexivity.
     Qed.
 
-    Lemma bind_object_single var y rest p ws :
-      is_elem_var var -> v_factory var = None -> ~ In (v_name var) (map fst p) ->
-      bind_objects_loop c m ((Some (v_qname var), y) :: rest) p [] ws
-      = bind_objects_loop c m rest (p ++ [(v_name var, PV y)]) [] ws.
+    Lemma bind_object_single var y rest p wr ws :
+      is_elem_var var -> v_factory var = None -> ~ In (v_name var) (map fst p) -> ~ In (v_qname var) (map fst wr) ->
+      bind_objects_loop c m ((Some (v_qname var), y) :: rest) p wr ws
+      = bind_objects_loop c m rest (p ++ [(v_name var, PV y)]) wr ws.
     Proof.
-      intros Hv Hf Hfr. destruct (elem_var_facts var Hv) as [Hi [Hw [Hwr _]]].
-      cbn [bind_objects_loop wrappers_pop find_children_opt rbind]. rewrite (find_children_elem var Hv).
+      intros Hv Hf Hfr Hq. destruct (elem_var_facts var Hv) as [Hi [Hw _]].
+      cbn [bind_objects_loop find_children_opt rbind]. rewrite (wrappers_pop_none _ _ Hq). cbn [rbind].
+      rewrite (find_children_elem var Hv).
       cbn [bind_object_loop]. unfold wrapper_mismatch. cbn [truthy_str]. rewrite Hw.
       unfold bind_var. rewrite Hi. unfold v_list_element. rewrite Hf.
       rewrite (pmem_false _ _ Hfr). cbn [rbind fst snd]. rewrite (pset_fresh _ _ _ Hfr). reflexivity.
@@ -573,34 +637,62 @@ Section Main.
       coll_append name f y (p1 ++ (name, PPend l0 g) :: p2) = ROk (p1 ++ (name, PPend (l0 ++ [y]) g) :: p2).
     Proof. intros H. unfold coll_append. rewrite (pget_mid _ _ _ _ H). rewrite (pset_replace _ _ _ _ _ H). reflexivity. Qed.
 
-    Lemma bind_objects_more var f l : forall l0 p1 p2 rest ws,
+    (* the state of the wrappers queue for one field: nothing (the field is not wrapped, its name is
+       not a key), or the remaining wrapper names of its items *)
+    Inductive wr_for (var : xvar) (k : nat) : list (qname * list qname) -> list (qname * list qname) -> Prop :=
+    | wr_plain wr : ~ In (v_qname var) (map fst wr) -> wr_for var k wr wr
+    | wr_wrapped w a b : v_wrapper_qname var = Some w -> w <> [] -> ~ In (v_qname var) (map fst a) ->
+                         wr_for var k (a ++ (v_qname var, repeat w k) :: b) (a ++ (v_qname var, []) :: b).
+
+    Lemma bind_objects_more var f l : forall l0 p1 p2 rest wr wr' ws,
       is_elem_var var -> v_factory var = Some f -> ~ In (v_name var) (map fst p1) ->
-      bind_objects_loop c m (map (fun y => (Some (v_qname var), y)) l ++ rest) (p1 ++ (v_name var, PPend l0 (Some f)) :: p2) [] ws
-      = bind_objects_loop c m rest (p1 ++ (v_name var, PPend (l0 ++ l) (Some f)) :: p2) [] ws.
+      wr_for var (length l) wr wr' ->
+      bind_objects_loop c m (map (fun y => (Some (v_qname var), y)) l ++ rest) (p1 ++ (v_name var, PPend l0 (Some f)) :: p2) wr ws
+      = bind_objects_loop c m rest (p1 ++ (v_name var, PPend (l0 ++ l) (Some f)) :: p2) wr' ws.
     Proof.
-      induction l as [|y l IH]; intros l0 p1 p2 rest ws Hv Hf Hfr.
-      - rewrite app_nil_r. reflexivity.
-      - cbn [map app].
-        rewrite (bind_object_list var f y _ _ _ ws Hv Hf (coll_append_more _ (Some f) (Some f) y l0 p1 p2 Hfr)).
-        rewrite IH by assumption. rewrite <- app_assoc. reflexivity.
+      induction l as [|y l IHl]; intros l0 p1 p2 rest wr wr' ws Hv Hf Hfr Hwr.
+      - rewrite app_nil_r. cbn [map app length] in *. inversion Hwr; subst; reflexivity.
+      - cbn [map app length] in *.
+        inversion Hwr as [wr0 Hnk|w a b Hw Hne Hnk]; subst.
+        + rewrite (bind_object_list var f y _ _ _ wr' wr' None ws Hv Hf (wrappers_pop_none _ _ Hnk) I
+                     (coll_append_more _ (Some f) (Some f) y l0 p1 p2 Hfr)).
+          rewrite (IHl (l0 ++ [y]) p1 p2 rest wr' wr' ws Hv Hf Hfr (wr_plain var _ wr' Hnk)).
+          rewrite <- app_assoc. reflexivity.
+        + cbn [repeat].
+          rewrite (bind_object_list var f y _ _ _ _ _ (Some w) ws Hv Hf (wrappers_pop_at _ w _ a b Hnk) (conj Hw Hne)
+                     (coll_append_more _ (Some f) (Some f) y l0 p1 p2 Hfr)).
+          rewrite (IHl (l0 ++ [y]) p1 p2 rest _ _ ws Hv Hf Hfr (wr_wrapped var _ w a b Hw Hne Hnk)).
+          rewrite <- app_assoc. reflexivity.
     Qed.
 
     (* all the child objects of one field *)
-    Lemma bind_objects_var var x rest p ws :
+    Lemma bind_objects_var var x rest p wr wr' ws :
       is_elem_var var -> ~ In (v_name var) (map fst p) ->
       (v_factory var = None -> (length (occ var x) <= 1)%nat) ->
-      bind_objects_loop c m (tagged var x ++ rest) p [] ws
-      = bind_objects_loop c m rest (p ++ eentry var x) [] ws.
+      wr_for var (length (occ var x)) wr wr' ->
+      bind_objects_loop c m (tagged var x ++ rest) p wr ws
+      = bind_objects_loop c m rest (p ++ eentry var x) wr' ws.
     Proof.
-      intros Hv Hfr Hone. unfold tagged, eentry.
-      destruct (occ var x) as [|y l] eqn:Eo; [rewrite app_nil_r; reflexivity|].
-      destruct (v_factory var) as [f|] eqn:Ef.
-      - cbn [map app].
-        rewrite (bind_object_list var f y _ _ _ ws Hv Ef (coll_append_fresh _ (Some f) y p Hfr)).
-        change (p ++ [(v_name var, PPend [y] (Some f))]) with (p ++ (v_name var, PPend [y] (Some f)) :: []).
-        rewrite (bind_objects_more var f l [y] p [] rest ws Hv Ef Hfr). reflexivity.
-      - specialize (Hone eq_refl). destruct l; [|cbn [length] in Hone; lia].
-        cbn [map app hd]. apply bind_object_single; assumption.
+      intros Hv Hfr Hone Hwr. unfold tagged, eentry.
+      destruct (occ var x) as [|y l] eqn:Eo.
+      - rewrite app_nil_r. cbn [map app length] in *. inversion Hwr; subst; reflexivity.
+      - destruct (v_factory var) as [f|] eqn:Ef.
+        + cbn [map app length] in *.
+          inversion Hwr as [wr0 Hnk|w a b Hw Hne Hnk]; subst.
+          * rewrite (bind_object_list var f y _ _ _ wr' wr' None ws Hv Ef (wrappers_pop_none _ _ Hnk) I
+                       (coll_append_fresh _ (Some f) y p Hfr)).
+            change (p ++ [(v_name var, PPend [y] (Some f))]) with (p ++ (v_name var, PPend [y] (Some f)) :: []).
+            rewrite (bind_objects_more var f l [y] p [] rest wr' wr' ws Hv Ef Hfr (wr_plain var _ wr' Hnk)). reflexivity.
+          * cbn [repeat].
+            rewrite (bind_object_list var f y _ _ _ _ _ (Some w) ws Hv Ef (wrappers_pop_at _ w _ a b Hnk) (conj Hw Hne)
+                       (coll_append_fresh _ (Some f) y p Hfr)).
+            change (p ++ [(v_name var, PPend [y] (Some f))]) with (p ++ (v_name var, PPend [y] (Some f)) :: []).
+            rewrite (bind_objects_more var f l [y] p [] rest _ _ ws Hv Ef Hfr (wr_wrapped var _ w a b Hw Hne Hnk)). reflexivity.
+        + specialize (Hone eq_refl). destruct l; [|cbn [length] in Hone; lia].
+          cbn [map app hd length] in *.
+          inversion Hwr as [wr0 Hnk|w a b Hw Hne Hnk]; subst.
+          * apply bind_object_single; assumption.
+          * exfalso. destruct Hv as [Hwe _]. destruct (wf_elem_wrapper var w Hwe Hw) as [_ [[f Hf] _]]. congruence.
     Qed.
 
     (* ---------------------------------------------------------------- cls( **params) *)
@@ -671,13 +763,24 @@ Section Main.
       | None => e_item (eobj n) var y
       end.
 
-    Lemma e_field_occ var x : is_elem_var var -> e_field (eobj n) var x = map (ienode var) (occ var x).
+    Lemma e_items_occ var x : is_elem_var var -> e_items (eobj n) var x = map (ienode var) (occ var x).
     Proof.
       intros Hv. destruct (elem_var_facts var Hv) as [_ [_ [_ [_ [Hkt _]]]]].
-      unfold RoundtripGen.e_field, occ, ienode. rewrite Hkt.
+      unfold RoundtripGen.e_items, occ, ienode. rewrite Hkt.
       destruct x as [|p|tp l|k' f'|q0 t0 tl0 a0 c0|q0 v0 ty0|m0]; try reflexivity;
         destruct (v_tokens_factory var); try reflexivity.
       destruct l as [|y l']; [reflexivity|]. destruct y; reflexivity.
+    Qed.
+
+    Lemma e_field_occ var x : is_elem_var var ->
+      e_field (eobj n) var x = match x with VNone => [] | _ => e_wrap var (map (ienode var) (occ var x)) end.
+    Proof. intros Hv. unfold RoundtripGen.e_field. rewrite (e_items_occ var x Hv). reflexivity. Qed.
+
+    Lemma e_field_cases var : is_elem_var var ->
+      (e_field (eobj n) var (F var) = [] /\ occ var (F var) = [])
+      \/ e_field (eobj n) var (F var) = e_wrap var (map (ienode var) (occ var (F var))).
+    Proof.
+      intros Hv. rewrite (e_field_occ var (F var) Hv). destruct (F var); try (right; reflexivity). left. split; reflexivity.
     Qed.
 
     Lemma wf_elem_default var : wf_elem var = true ->
@@ -767,6 +870,19 @@ Section Main.
         + exfalso. unfold Fits.fits_item in Hf. destruct (vtype var); discriminate Hf.
     Qed.
 
+    Lemma ienode_elem var y : is_elem_var var -> item_ok var y ->
+      exists q a k, ienode var y = EElem q a k.
+    Proof.
+      intros Hv Hok. pose proof Hv as [Hw Hin]. unfold ienode, item_ok in *.
+      destruct (v_tokens_factory var) as [tf|] eqn:Etf; [unfold RoundtripGen.e_prim; eauto|].
+      destruct (wf_elem_inv var Hw) as [_ [_ [[k [Hty [Hcl _]]]|[t [Hty [Hst _]]]]]].
+      - destruct (fits_item_class c u ok _ var k y Hty Hok) as [cl' [fs' [-> Hfk]]].
+        cbn [RoundtripGen.e_item]. destruct n as [|n']; [discriminate Hfk|].
+        destruct (fits_inv c u ok py_isspace n' k _ Hfk) as [fs'' [mk [E [Hmk _]]]]. inversion E; subst.
+        cbn [RoundtripGen.eobj]. rewrite Hmk. eauto.
+      - destruct (fits_item_simple c u ok _ var t y Hty Hst Hok) as [p [-> _]].
+        cbn [RoundtripGen.e_item]. unfold RoundtripGen.e_prim. eauto.
+    Qed.
     (* ---------------------------------------------------------------- the child elements, one by one *)
     Hypothesis IH : obj_parses n.
     Hypothesis Hnest : forall e v k, In e (m_elements m) -> In v (snd e) -> v_clazz v = Some k -> wfr k.
@@ -774,37 +890,67 @@ Section Main.
     Variable ns0 : nsmap.
     Variable pos0 : nat.
 
-    Definition enW (asg : list N) : enode := mk_enode m attrs0 ns0 pos0 false None None asg [].
+    Definition enW (asg : list N) (wr : list (qname * list qname)) : enode :=
+      mk_enode m attrs0 ns0 pos0 false None None asg wr.
     Definition asg_after (var : xvar) (asg : list N) : list N :=
       match v_factory var with None => asg ++ [v_index var] | Some _ => asg end.
+    (* the queue entries above the class element: nothing, or the open wrapper element *)
+    Definition ctx (wo : option qname) : list node := match wo with Some w => [NWrapper w] | None => [] end.
+    Definition wr_after (var : xvar) (wo : option qname) (wr : list (qname * list qname)) :=
+      match wo with Some w => wrappers_push (v_qname var) w wr | None => wr end.
 
-    Lemma start_child var attrs ns asg Q objs W node :
-      is_elem_var var ->
-      (v_factory var = None -> ~ In (v_index var) asg) ->
-      build_node c u (enW asg) (v_qname var) var attrs ns (length objs) = ROk (Some node) ->
-      pstep (mk_pstate (NElement (enW asg) :: Q) objs W) (PStart (v_qname var) attrs ns)
-      = ROk (mk_pstate (node :: NElement (enW (asg_after var asg)) :: Q) objs W).
+    Lemma elem_not_wrapper var : is_elem_var var -> assoc (v_qname var) (m_wrappers m) = None.
     Proof.
-      intros Hv Hasg Hb. pose proof Hv as [Hw Hin].
-      destruct (wf_class_inv m Hwc) as [F1 F2 F3 F4 F5 F6 F7 F8 F9 F10 F11 F12 F13].
-      destruct (elem_var_facts var Hv) as [Hi [Hwl [Hwr [Hk _]]]].
-      destruct (wf_elem_inv var Hw) as [_ [Hc _]]. destruct (var_common_inv var Hc) as [_ [_ [_ [_ [_ [_ [_ [_ Hidx]]]]]]]].
-      cbn [Parser.step start st_queue st_objects st_warn].
-      change (en_meta (enW asg)) with m. rewrite F4. cbn [assoc is_some].
-      unfold element_child. change (en_meta (enW asg)) with m. rewrite (find_children_elem var Hv).
-      cbn [child_loop]. unfold wrapper_mismatch. cbn [truthy_str]. rewrite Hk.
-      unfold v_list_element, asg_after. destruct (v_factory var) as [f|] eqn:Ef.
-      - cbn [negb andb N.eqb orb]. rewrite Hb. reflexivity.
-      - cbn [negb andb]. destruct (N.eqb_spec (v_index var) 0) as [E|_]; [contradiction|].
-        cbn [orb en_assigned].
-        assert (Hex : existsb (N.eqb (v_index var)) asg = false).
-        { apply existsb_false_iff'. intros i Hi'. apply N.eqb_neq. intros E. subst i. apply (Hasg eq_refl). exact Hi'. }
-        change (en_assigned (enW asg)) with asg. rewrite Hex. cbn [negb]. rewrite Hb. reflexivity.
+      intros [_ Hin]. destruct (wf_class_inv m Hwc) as [F1 F2 F3 F4 F5 F6 F7 F8 F9 F10 F11 F12 F13].
+      rewrite forallb_forall in F4. specialize (F4 _ Hin). cbn [fst snd] in F4. apply andb_true_iff in F4 as [F4 _].
+      destruct (assoc (v_qname var) (m_wrappers m)); [discriminate F4|reflexivity].
     Qed.
 
-    Lemma build_node_prim var ns pos asg :
+    Lemma wrapper_known var w : is_elem_var var -> v_wrapper_qname var = Some w ->
+      exists x, assoc w (m_wrappers m) = Some x.
+    Proof.
+      intros [_ Hin] Hw. destruct (wf_class_inv m Hwc) as [F1 F2 F3 F4 F5 F6 F7 F8 F9 F10 F11 F12 F13].
+      rewrite forallb_forall in F4. specialize (F4 _ Hin). cbn [fst snd] in F4. apply andb_true_iff in F4 as [_ F4].
+      cbn [forallb] in F4. rewrite Hw, andb_true_r in F4. destruct (assoc w (m_wrappers m)); [eauto|discriminate F4].
+    Qed.
+
+    Lemma start_child var attrs ns asg wr wo Q objs W node :
+      is_elem_var var ->
+      (v_factory var = None -> ~ In (v_index var) asg) ->
+      wrap_agrees var wo ->
+      build_node c u (enW asg wr) (v_qname var) var attrs ns (length objs) = ROk (Some node) ->
+      pstep (mk_pstate (ctx wo ++ NElement (enW asg wr) :: Q) objs W) (PStart (v_qname var) attrs ns)
+      = ROk (mk_pstate (node :: ctx wo ++ NElement (enW (asg_after var asg) (wr_after var wo wr)) :: Q) objs W).
+    Proof.
+      intros Hv Hasg Hag Hb. pose proof Hv as [Hw Hin].
+      destruct (elem_var_facts var Hv) as [Hi [Hwl [_ [Hk _]]]].
+      destruct (wf_elem_inv var Hw) as [_ [Hc _]]. destruct (var_common_inv var Hc) as [_ [_ [_ [_ [_ [_ [_ [_ Hidx]]]]]]]].
+      assert (Hloop : child_loop c u (enW asg wr) (v_qname var) attrs ns (length objs) wo [var]
+                      = ROk (Some (node, enW (asg_after var asg) (wr_after var wo wr)))).
+      { cbn [child_loop]. rewrite (wrapper_mismatch_no var wo Hag). rewrite Hk.
+        unfold v_list_element, asg_after. destruct (v_factory var) as [f|] eqn:Ef.
+        - cbn [negb andb N.eqb orb]. rewrite Hb. cbn [rbind N.eqb].
+          unfold wr_after. destruct wo as [w|]; [|reflexivity]. destruct Hag as [_ Hne].
+          destruct w as [|ch w']; [congruence|]. reflexivity.
+        - cbn [negb andb]. destruct (N.eqb_spec (v_index var) 0) as [E|_]; [contradiction|].
+          cbn [orb]. change (en_assigned (enW asg wr)) with asg.
+          assert (Hex : existsb (N.eqb (v_index var)) asg = false).
+          { apply existsb_false_iff'. intros i Hi'. apply N.eqb_neq. intros E. subst i. apply (Hasg eq_refl). exact Hi'. }
+          rewrite Hex. cbn [negb]. rewrite Hb. cbn [rbind].
+          destruct (N.eqb_spec (v_index var) 0) as [E|_]; [contradiction|].
+          unfold wr_after. destruct wo as [w|]; [|reflexivity]. destruct Hag as [_ Hne].
+          destruct w as [|ch w']; [congruence|]. reflexivity. }
+      destruct wo as [w|]; cbn [ctx app Parser.step start st_queue st_objects st_warn].
+      - unfold element_child. change (en_meta (enW asg wr)) with m. rewrite (find_children_elem var Hv).
+        rewrite Hloop. reflexivity.
+      - change (en_meta (enW asg wr)) with m. rewrite (elem_not_wrapper var Hv). cbn [is_some].
+        unfold element_child. change (en_meta (enW asg wr)) with m. rewrite (find_children_elem var Hv).
+        rewrite Hloop. reflexivity.
+    Qed.
+
+    Lemma build_node_prim var ns pos asg wr :
       is_elem_var var -> v_clazz var = None ->
-      build_node c u (enW asg) (v_qname var) var [] ns pos = ROk (Some (NPrimitive m var ns)).
+      build_node c u (enW asg wr) (v_qname var) var [] ns pos = ROk (Some (NPrimitive m var ns)).
     Proof.
       intros Hv Hcl. pose proof Hv as [Hw _].
       destruct (elem_var_facts var Hv) as [Hi [Hwl _]].
@@ -813,11 +959,11 @@ Section Main.
       rewrite Hany, Hwl. reflexivity.
     Qed.
 
-    Lemma build_node_class var k mk attrs ns pos asg :
+    Lemma build_node_class var k mk attrs ns pos asg wr :
       is_elem_var var -> v_clazz var = Some k -> v_types var = [TClass k] ->
       u_meta u k = Some mk -> m_nillable mk = false ->
       assoc XSI_TYPE attrs = None -> assoc XSI_NIL attrs = None ->
-      build_node c u (enW asg) (v_qname var) var attrs ns pos
+      build_node c u (enW asg wr) (v_qname var) var attrs ns pos
       = ROk (Some (NElement (mk_enode mk attrs ns pos false None None [] []))).
     Proof.
       intros Hv Hcl Hty Hmk Hnil Hxt Hxn. pose proof Hv as [Hw _].
@@ -845,20 +991,20 @@ Section Main.
     Qed.
 
     (* a primitive / token element *)
-    Lemma prim_item_run var y t a asg Q objs W rest :
+    Lemma prim_item_run var y t a asg wr wo Q objs W rest :
       is_elem_var var -> v_clazz var = None -> v_types var = [t] ->
       vshape t (v_format var) y -> tokens_agree var y ->
       (y_text (v_format var) y = [] -> exists p, y = VP p /\ empty_ok c u var p = true) ->
-      (v_factory var = None -> ~ In (v_index var) asg) ->
+      (v_factory var = None -> ~ In (v_index var) asg) -> wrap_agrees var wo ->
       reads (e_prim var y) a ->
-      prun (mk_pstate (NElement (enW asg) :: Q) objs W) (a ++ rest)
-      = prun (mk_pstate (NElement (enW (asg_after var asg)) :: Q) (objs ++ [(Some (v_qname var), y)]) W) rest.
+      prun (mk_pstate (ctx wo ++ NElement (enW asg wr) :: Q) objs W) (a ++ rest)
+      = prun (mk_pstate (ctx wo ++ NElement (enW (asg_after var asg) (wr_after var wo wr)) :: Q) (objs ++ [(Some (v_qname var), y)]) W) rest.
     Proof.
-      intros Hv Hcl Ht Hs Htk Hemp Hasg Hr. pose proof Hv as [Hw _].
+      intros Hv Hcl Ht Hs Htk Hemp Hasg Hag Hr. pose proof Hv as [Hw _].
       destruct (reads_prim var y t a Ht Hs Hr) as [ns [tail [Htl ->]]].
       cbn [app].
       rewrite (run_step cfg c u replay root _ _ _ _
-                 (start_child var [] ns asg Q objs W _ Hv Hasg (build_node_prim var ns (length objs) asg Hv Hcl))).
+                 (start_child var [] ns asg wr wo Q objs W _ Hv Hasg Hag (build_node_prim var ns (length objs) asg wr Hv Hcl))).
       destruct (wf_class_inv m Hwc) as [F1 F2 F3 F4 F5 F6 F7 F8 F9 F10 F11 F12 F13].
       destruct (wf_elem_inv var Hw) as [_ [Hc _]]. destruct (var_common_inv var Hc) as [_ [_ [_ [Hn _]]]].
       apply run_step. cbn [Parser.step pend st_queue st_objects st_warn].
@@ -886,15 +1032,15 @@ Section Main.
     Qed.
 
     (* a nested object *)
-    Lemma obj_item_run var k y a asg Q objs W rest :
+    Lemma obj_item_run var k y a asg wr wo Q objs W rest :
       is_elem_var var -> v_clazz var = Some k -> v_types var = [TClass k] ->
       fits_item (fits n) var y = true ->
-      (v_factory var = None -> ~ In (v_index var) asg) ->
+      (v_factory var = None -> ~ In (v_index var) asg) -> wrap_agrees var wo ->
       reads (e_item (eobj n) var y) a ->
-      prun (mk_pstate (NElement (enW asg) :: Q) objs W) (a ++ rest)
-      = prun (mk_pstate (NElement (enW (asg_after var asg)) :: Q) (objs ++ [(Some (v_qname var), y)]) W) rest.
+      prun (mk_pstate (ctx wo ++ NElement (enW asg wr) :: Q) objs W) (a ++ rest)
+      = prun (mk_pstate (ctx wo ++ NElement (enW (asg_after var asg) (wr_after var wo wr)) :: Q) (objs ++ [(Some (v_qname var), y)]) W) rest.
     Proof.
-      intros Hv Hcl Hty Hfy Hasg Hr. pose proof Hv as [Hw Hin].
+      intros Hv Hcl Hty Hfy Hasg Hag Hr. pose proof Hv as [Hw Hin].
       destruct (fits_item_class c u ok _ var k y Hty Hfy) as [cl' [fs' [-> Hfk]]].
       cbn [RoundtripGen.e_item] in Hr.
       assert (Hwk : wfr k) by (apply (Hnest _ var k Hin (or_introl eq_refl) Hcl)).
@@ -906,39 +1052,39 @@ Section Main.
       destruct (wf_class_inv mk Hwck) as [G1 G2 G3 G4 G5 G6 G7 G8 G9 G10 G11 G12 G13].
       cbn [app].
       rewrite (run_step cfg c u replay root _ _ _ _
-                 (start_child var attrs ns asg Q objs W _ Hv Hasg
-                    (build_node_class var k mk attrs ns (length objs) asg Hv Hcl Hty Hmk G5 Hxt Hxn))).
+                 (start_child var attrs ns asg wr wo Q objs W _ Hv Hasg Hag
+                    (build_node_class var k mk attrs ns (length objs) asg wr Hv Hcl Hty Hmk G5 Hxt Hxn))).
       apply (Hrun mk Hmk).
     Qed.
 
-    Lemma one_item_run var y a asg Q objs W rest :
+    Lemma one_item_run var y a asg wr wo Q objs W rest :
       is_elem_var var -> item_ok var y ->
-      (v_factory var = None -> ~ In (v_index var) asg) ->
+      (v_factory var = None -> ~ In (v_index var) asg) -> wrap_agrees var wo ->
       reads (ienode var y) a ->
-      prun (mk_pstate (NElement (enW asg) :: Q) objs W) (a ++ rest)
-      = prun (mk_pstate (NElement (enW (asg_after var asg)) :: Q) (objs ++ [(Some (v_qname var), y)]) W) rest.
+      prun (mk_pstate (ctx wo ++ NElement (enW asg wr) :: Q) objs W) (a ++ rest)
+      = prun (mk_pstate (ctx wo ++ NElement (enW (asg_after var asg) (wr_after var wo wr)) :: Q) (objs ++ [(Some (v_qname var), y)]) W) rest.
     Proof.
-      intros Hv Hok Hasg Hr. pose proof Hv as [Hw Hin].
+      intros Hv Hok Hasg Hag Hr. pose proof Hv as [Hw Hin].
       unfold item_ok in Hok. unfold ienode in Hr.
       destruct (wf_elem_inv var Hw) as [_ [_ [[k [Hty [Hcl Htf]]]|[t [Hty [Hst Hcl]]]]]].
-      - rewrite Htf in *. apply (obj_item_run var k y a asg Q objs W rest Hv Hcl Hty Hok Hasg Hr).
+      - rewrite Htf in *. apply (obj_item_run var k y a asg wr wo Q objs W rest Hv Hcl Hty Hok Hasg Hag Hr).
       - destruct (v_tokens_factory var) as [tf|] eqn:Etf.
         + destruct (fits_tokens_inv c u ok py_isspace var tf y t Hty Hok) as [tp [l [-> [Hne [Htk Htp]]]]].
           assert (Hsh : vshape t (v_format var) (VList tp l)) by (apply vs_tokens; exact Htk).
-          assert (Hag : tokens_agree var (VList tp l)) by (exists tf; split; [exact Etf|exact Htp]).
+          assert (Hagt : tokens_agree var (VList tp l)) by (exists tf; split; [exact Etf|exact Htp]).
           assert (Hemp : y_text (v_format var) (VList tp l) = [] -> exists p, VList tp l = VP p /\ empty_ok c u var p = true).
           { intros Hy. exfalso. cbn [y_text] in Hy. destruct l as [|y1 l']; [congruence|].
             cbn [forallb] in Htk. apply andb_true_iff in Htk as [H1 _].
             destruct (token_ok_inv c u ok t _ y1 H1) as [p [-> [_ [Hne' _]]]].
             cbn [map] in Hy. apply (join_nonempty _ (map (x_text c u (v_format var)) l') Hne'). exact Hy. }
-          apply (prim_item_run var (VList tp l) t a asg Q objs W rest Hv Hcl Hty Hsh Hag Hemp Hasg Hr).
+          apply (prim_item_run var (VList tp l) t a asg wr wo Q objs W rest Hv Hcl Hty Hsh Hagt Hemp Hasg Hag Hr).
         + destruct (fits_item_simple c u ok _ var t y Hty Hst Hok) as [p [-> Hp]].
           assert (Hsh : vshape t (v_format var) (VP p)) by (apply vs_leaf; exact Hp).
           assert (Hemp : y_text (v_format var) (VP p) = [] -> exists p0, VP p = VP p0 /\ empty_ok c u var p0 = true).
           { intros _. exists p. split; [reflexivity|].
             unfold Fits.fits_item, vtype in Hok. rewrite Hty in Hok.
             destruct t; try discriminate Hst; apply andb_true_iff in Hok as [_ Hok]; exact Hok. }
-          apply (prim_item_run var (VP p) t a asg Q objs W rest Hv Hcl Hty Hsh Etf Hemp Hasg Hr).
+          apply (prim_item_run var (VP p) t a asg wr wo Q objs W rest Hv Hcl Hty Hsh Etf Hemp Hasg Hag Hr).
     Qed.
 
     Lemma reads_kids_cons k r kes : reads_kids (k :: r) kes <-> exists a b, kes = a ++ b /\ reads k a /\ reads_kids r b.
@@ -958,43 +1104,102 @@ Section Main.
           apply IHa. exists q, k2. repeat split; assumption.
     Qed.
 
+    (* the wrappers queue after the items of one (list) field were started inside the wrapper `wo` *)
+    Fixpoint wr_pushes (var : xvar) (wo : option qname) (k : nat) (wr : list (qname * list qname)) :=
+      match k with O => wr | S k' => wr_pushes var wo k' (wr_after var wo wr) end.
+
     (* the items of a list field *)
-    Lemma list_items_run var f l : forall kes asg Q objs W rest,
-      is_elem_var var -> v_factory var = Some f -> Forall (item_ok var) l ->
+    Lemma list_items_run var f l : forall kes asg wr wo Q objs W rest,
+      is_elem_var var -> v_factory var = Some f -> Forall (item_ok var) l -> wrap_agrees var wo ->
       reads_kids (map (ienode var) l) kes ->
-      prun (mk_pstate (NElement (enW asg) :: Q) objs W) (kes ++ rest)
-      = prun (mk_pstate (NElement (enW asg) :: Q) (objs ++ map (fun y => (Some (v_qname var), y)) l) W) rest.
+      prun (mk_pstate (ctx wo ++ NElement (enW asg wr) :: Q) objs W) (kes ++ rest)
+      = prun (mk_pstate (ctx wo ++ NElement (enW asg (wr_pushes var wo (length l) wr)) :: Q)
+                        (objs ++ map (fun y => (Some (v_qname var), y)) l) W) rest.
     Proof.
-      induction l as [|y l IHl]; intros kes asg Q objs W rest Hv Hf Hall Hr.
+      induction l as [|y l IHl]; intros kes asg wr wo Q objs W rest Hv Hf Hall Hag Hr.
       - cbn [map reads_kids] in Hr. subst kes. rewrite app_nil_r. reflexivity.
       - cbn [map reads_kids] in Hr. destruct Hr as [a [b [-> [Ha Hb]]]]. inversion Hall as [|? ? Hy Hl]; subst.
         rewrite <- app_assoc.
-        rewrite (one_item_run var y a asg Q objs W (b ++ rest) Hv Hy); [|rewrite Hf; discriminate|exact Ha].
+        rewrite (one_item_run var y a asg wr wo Q objs W (b ++ rest) Hv Hy); [|rewrite Hf; discriminate|exact Hag|exact Ha].
         unfold asg_after. rewrite Hf.
-        rewrite (IHl b asg Q _ W rest Hv Hf Hl Hb). cbn [map]. rewrite <- app_assoc. reflexivity.
+        rewrite (IHl b asg _ wo Q _ W rest Hv Hf Hl Hag Hb). cbn [map length wr_pushes]. rewrite <- app_assoc. reflexivity.
     Qed.
+
+    Lemma wr_pushes_none var k wr : wr_pushes var None k wr = wr.
+    Proof. revert wr; induction k; intros wr; [reflexivity|]. cbn [wr_pushes wr_after]. apply IHk. Qed.
+
+    Lemma wr_pushes_some var w k : forall x a b, ~ In (v_qname var) (map fst a) ->
+      wr_pushes var (Some w) k (a ++ (v_qname var, x) :: b) = a ++ (v_qname var, x ++ repeat w k) :: b.
+    Proof.
+      induction k as [|k IHk]; intros x a b Hn; cbn [wr_pushes repeat]; [rewrite app_nil_r; reflexivity|].
+      cbn [wr_after]. rewrite (wrappers_push_at _ w x a b Hn). rewrite (IHk _ a b Hn). rewrite <- app_assoc. reflexivity.
+    Qed.
+
+    (* the entry the field leaves in the wrappers queue *)
+    Definition wentry (var : xvar) : list (qname * list qname) :=
+      match v_wrapper_qname var, occ var (F var) with
+      | Some w, (_ :: _) as l => [(v_qname var, repeat w (length l))]
+      | _, _ => []
+      end.
 
     (* all the elements of one field *)
     Definition asg_field (var : xvar) (asg : list N) : list N :=
       match occ var (F var) with [] => asg | _ => asg_after var asg end.
 
-    Lemma var_run var kes asg Q objs W rest :
-      is_elem_var var -> ~ In (v_index var) asg ->
+    Lemma var_run var kes asg wr Q objs W rest :
+      is_elem_var var -> ~ In (v_index var) asg -> ~ In (v_qname var) (map fst wr) ->
       reads_kids (e_field (eobj n) var (F var)) kes ->
-      prun (mk_pstate (NElement (enW asg) :: Q) objs W) (kes ++ rest)
-      = prun (mk_pstate (NElement (enW (asg_field var asg)) :: Q) (objs ++ tagged var (F var)) W) rest.
+      prun (mk_pstate (NElement (enW asg wr) :: Q) objs W) (kes ++ rest)
+      = prun (mk_pstate (NElement (enW (asg_field var asg) (wr ++ wentry var)) :: Q) (objs ++ tagged var (F var)) W) rest.
     Proof.
-      intros Hv Hasg Hr. rewrite (e_field_occ var (F var) Hv) in Hr.
-      destruct (elem_field_facts var Hv) as [Hall [Hone _]].
-      unfold asg_field, tagged.
-      destruct (v_factory var) as [f|] eqn:Ef.
-      - rewrite (list_items_run var f _ kes asg Q objs W rest Hv Ef Hall Hr).
-        unfold asg_after. rewrite Ef. destruct (occ var (F var)); reflexivity.
-      - specialize (Hone eq_refl). destruct (occ var (F var)) as [|y [|? ?]]; [| |cbn [length] in Hone; lia].
-        + cbn [map reads_kids] in Hr. subst kes. cbn [map]. rewrite !app_nil_r. reflexivity.
-        + cbn [map reads_kids] in Hr. destruct Hr as [a [b [-> [Ha ->]]]]. rewrite app_nil_r.
-          inversion Hall as [|? ? Hy _]; subst.
-          apply (one_item_run var y a asg Q objs W rest Hv Hy (fun _ => Hasg) Ha).
+      intros Hv Hasg Hwq Hr.
+      destruct (elem_field_facts var Hv) as [Hall [Hone _]]. pose proof Hv as [Hwe _].
+      destruct (e_field_cases var Hv) as [[Ee Eo]|Ee]; rewrite Ee in Hr.
+      { cbn [reads_kids] in Hr. subst kes. unfold asg_field, tagged, wentry. rewrite Eo.
+        destruct (v_wrapper_qname var); cbn [map app]; rewrite !app_nil_r; reflexivity. }
+      unfold asg_field, tagged, wentry. unfold RoundtripGen.e_wrap in Hr.
+      destruct (v_wrapper_qname var) as [w|] eqn:Ew.
+      - (* inside a wrapper element *)
+        destruct (wf_elem_wrapper var w Hwe Ew) as [Hne [[f Hf] Htf]].
+        assert (Hag : wrap_agrees var (Some w)) by (split; [exact Ew|exact Hne]).
+        destruct (wrapper_known var w Hv Ew) as [xw Hxw].
+        assert (Hr' : reads_kids [EElem (Bind.split_qname w) [] (map (ienode var) (occ var (F var)))] kes).
+        { destruct w as [|ch w']; [congruence|exact Hr]. }
+        clear Hr. rename Hr' into Hr.
+        cbn [reads_kids] in Hr. destruct Hr as [a [b [-> [Ha ->]]]]. rewrite app_nil_r.
+        cbn [reads] in Ha. destruct Ha as [attrs [ns [text [tail [kes [Hp [Hra [Htl Hk]]]]]]]].
+        rewrite clark_split in Hp. subst a.
+        assert (Hkids : reads_kids (map (ienode var) (occ var (F var))) kes).
+        { apply (reads_content_elems _ text kes); [|exact Hk].
+          intros e He. apply in_map_iff in He as [y [<- Hy]].
+          rewrite Forall_forall in Hall. apply (ienode_elem var y Hv (Hall y Hy)). }
+        cbn [app]. rewrite <- app_assoc. cbn [app].
+        rewrite (run_step cfg c u replay root _ _
+                   (mk_pstate (NWrapper w :: NElement (enW asg wr) :: Q) objs W) _).
+        2:{ cbn [Parser.step start st_queue st_objects st_warn]. change (en_meta (enW asg wr)) with m. rewrite Hxw. reflexivity. }
+        change (NWrapper w :: NElement (enW asg wr) :: Q) with (ctx (Some w) ++ NElement (enW asg wr) :: Q).
+        rewrite (list_items_run var f _ kes asg wr (Some w) Q objs W _ Hv Hf Hall Hag Hkids).
+        rewrite (run_step cfg c u replay root _ _
+                   (mk_pstate (NElement (enW asg (wr_pushes var (Some w) (length (occ var (F var))) wr)) :: Q)
+                              (objs ++ map (fun y => (Some (v_qname var), y)) (occ var (F var))) W) _).
+        2:{ reflexivity. }
+        unfold asg_after. rewrite Hf.
+        destruct (occ var (F var)) as [|y0 l0] eqn:Eo; [cbn [length wr_pushes map]; rewrite !app_nil_r; reflexivity|].
+        cbn [length wr_pushes wr_after]. rewrite (wrappers_push_fresh _ w wr Hwq).
+        change (wr ++ [(v_qname var, [w])]) with (wr ++ (v_qname var, [w]) :: []).
+        rewrite (wr_pushes_some var w (length l0) [w] wr [] Hwq). reflexivity.
+      - (* directly below the class element *)
+        rewrite app_nil_r.
+        destruct (v_factory var) as [f|] eqn:Ef.
+        + change (NElement (enW asg wr) :: Q) with (ctx None ++ NElement (enW asg wr) :: Q).
+          rewrite (list_items_run var f _ kes asg wr None Q objs W rest Hv Ef Hall I Hr).
+          rewrite wr_pushes_none. unfold asg_after. rewrite Ef. cbn [ctx app].
+          destruct (occ var (F var)); reflexivity.
+        + specialize (Hone eq_refl). destruct (occ var (F var)) as [|y [|? ?]]; [| |cbn [length] in Hone; lia].
+          * cbn [map reads_kids] in Hr. subst kes. cbn [map]. rewrite !app_nil_r. reflexivity.
+          * cbn [map reads_kids] in Hr. destruct Hr as [a [b [-> [Ha ->]]]]. rewrite !app_nil_r.
+            inversion Hall as [|? ? Hy _]; subst.
+            apply (one_item_run var y a asg wr None Q objs W rest Hv Hy (fun _ => Hasg) I Ha).
     Qed.
 
     Lemma asg_field_in var asg i : In i (asg_field var asg) -> In i asg \/ i = v_index var.
@@ -1003,48 +1208,86 @@ Section Main.
       destruct (v_factory var); [left; assumption|]. intros H. apply in_app_or in H as [H|[H|[]]]; [left; exact H|right; symmetry; exact H].
     Qed.
 
-    Lemma vars_run vars : forall kes asg Q objs W rest,
-      (forall var, In var vars -> is_elem_var var) -> NoDup (map v_index vars) ->
-      (forall var, In var vars -> ~ In (v_index var) asg) ->
-      reads_kids (flat_map (fun var => e_field (eobj n) var (F var)) vars) kes ->
-      exists asg', prun (mk_pstate (NElement (enW asg) :: Q) objs W) (kes ++ rest)
-                   = prun (mk_pstate (NElement (enW asg') :: Q) (objs ++ flat_map (fun var => tagged var (F var)) vars) W) rest.
+    Lemma wentry_keys var k : In k (map fst (wentry var)) -> k = v_qname var.
     Proof.
-      induction vars as [|var vars IHv]; intros kes asg Q objs W rest Hall Hnd Hasg Hr.
-      - cbn [flat_map reads_kids] in Hr. subst kes. exists asg. rewrite app_nil_r. reflexivity.
+      unfold wentry. destruct (v_wrapper_qname var); [|intros []]. destruct (occ var (F var)); [intros []|].
+      intros [H|[]]. symmetry. exact H.
+    Qed.
+
+    Lemma vars_run vars : forall kes asg wr Q objs W rest,
+      (forall var, In var vars -> is_elem_var var) -> NoDup (map v_index vars) -> NoDup (map v_qname vars) ->
+      (forall var, In var vars -> ~ In (v_index var) asg) ->
+      (forall var, In var vars -> ~ In (v_qname var) (map fst wr)) ->
+      reads_kids (flat_map (fun var => e_field (eobj n) var (F var)) vars) kes ->
+      exists asg', prun (mk_pstate (NElement (enW asg wr) :: Q) objs W) (kes ++ rest)
+                   = prun (mk_pstate (NElement (enW asg' (wr ++ flat_map wentry vars)) :: Q)
+                                     (objs ++ flat_map (fun var => tagged var (F var)) vars) W) rest.
+    Proof.
+      induction vars as [|var vars IHv]; intros kes asg wr Q objs W rest Hall Hnd Hnq Hasg Hwq Hr.
+      - cbn [flat_map reads_kids] in Hr. subst kes. exists asg. rewrite !app_nil_r. reflexivity.
       - cbn [flat_map] in Hr. apply reads_kids_app in Hr as [k1 [k2 [-> [H1 H2]]]].
-        cbn [map] in Hnd. inversion_clear Hnd as [|? ? Hni Hnd'].
+        cbn [map] in Hnd, Hnq. inversion_clear Hnd as [|? ? Hni Hnd']. inversion_clear Hnq as [|? ? Hnqi Hnq'].
         rewrite <- app_assoc.
-        rewrite (var_run var k1 asg Q objs W (k2 ++ rest) (Hall var (or_introl eq_refl)) (Hasg var (or_introl eq_refl)) H1).
-        destruct (IHv k2 (asg_field var asg) Q (objs ++ tagged var (F var)) W rest) as [asg' Hrun].
+        rewrite (var_run var k1 asg wr Q objs W (k2 ++ rest) (Hall var (or_introl eq_refl)) (Hasg var (or_introl eq_refl))
+                   (Hwq var (or_introl eq_refl)) H1).
+        destruct (IHv k2 (asg_field var asg) (wr ++ wentry var) Q (objs ++ tagged var (F var)) W rest) as [asg' Hrun].
         + intros v Hv. apply Hall. right; exact Hv.
         + exact Hnd'.
+        + exact Hnq'.
         + intros v Hv Hi. apply asg_field_in in Hi as [Hi|Hi].
           * apply (Hasg v (or_intror Hv)). exact Hi.
           * apply Hni. rewrite <- Hi. apply in_map. exact Hv.
+        + intros v Hv Hi. rewrite map_app in Hi. apply in_app_or in Hi as [Hi|Hi].
+          * apply (Hwq v (or_intror Hv)). exact Hi.
+          * apply wentry_keys in Hi. apply Hnqi. rewrite <- Hi. apply in_map. exact Hv.
         + exact H2.
-        + exists asg'. rewrite Hrun. cbn [flat_map]. rewrite <- app_assoc. reflexivity.
+        + exists asg'. rewrite Hrun. cbn [flat_map]. rewrite <- !app_assoc. reflexivity.
     Qed.
 
-    Lemma bind_objects_vars vars : forall p,
-      (forall var, In var vars -> is_elem_var var) -> NoDup (map v_name vars) ->
+    Lemma bind_objects_vars vars : forall p a,
+      (forall var, In var vars -> is_elem_var var) -> NoDup (map v_name vars) -> NoDup (map v_qname vars) ->
       (forall var, In var vars -> ~ In (v_name var) (map fst p)) ->
-      bind_objects_loop c m (flat_map (fun var => tagged var (F var)) vars) p [] []
+      (forall var, In var vars -> ~ In (v_qname var) (map fst a)) ->
+      bind_objects_loop c m (flat_map (fun var => tagged var (F var)) vars) p (a ++ flat_map wentry vars) []
       = ROk (p ++ flat_map (fun var => eentry var (F var)) vars, []).
     Proof.
-      induction vars as [|var vars IHv]; intros p Hall Hnd Hfr.
+      induction vars as [|var vars IHv]; intros p a Hall Hnd Hnq Hfr Hwq.
       - cbn [flat_map bind_objects_loop]. rewrite app_nil_r. reflexivity.
-      - cbn [flat_map map] in *. inversion_clear Hnd as [|? ? Hni Hnd'].
-        destruct (elem_field_facts var (Hall var (or_introl eq_refl))) as [_ [Hone _]].
-        rewrite (bind_objects_var var (F var) _ p [] (Hall var (or_introl eq_refl)) (Hfr var (or_introl eq_refl)) Hone).
+      - cbn [flat_map map] in *. inversion_clear Hnd as [|? ? Hni Hnd']. inversion_clear Hnq as [|? ? Hnqi Hnq'].
+        pose proof (Hall var (or_introl eq_refl)) as Hv.
+        destruct (elem_field_facts var Hv) as [_ [Hone _]].
+        assert (Hrestq : ~ In (v_qname var) (map fst (flat_map wentry vars))).
+        { intros Hi. apply in_map_iff in Hi as [[k x] [Ek Hi]]. cbn [fst] in Ek. subst k.
+          apply in_flat_map in Hi as [v [Hv' Hi]]. assert (Hk : In (v_qname var) (map fst (wentry v))) by (apply in_map_iff; eexists; split; [|exact Hi]; reflexivity).
+          apply wentry_keys in Hk. apply Hnqi. rewrite Hk. apply in_map. exact Hv'. }
+        assert (Hstep : exists a', wr_for var (length (occ var (F var))) (a ++ wentry var ++ flat_map wentry vars) (a' ++ flat_map wentry vars)
+                                   /\ forall v, In v vars -> ~ In (v_qname v) (map fst a')).
+        { unfold wentry at 1 2. destruct (v_wrapper_qname var) as [w|] eqn:Ew.
+          - destruct Hv as [Hwe _]. destruct (wf_elem_wrapper var w Hwe Ew) as [Hne _].
+            destruct (occ var (F var)) as [|y0 l0] eqn:Eo.
+            + exists a. cbn [app length]. split; [|intros v Hv'; apply Hwq; right; exact Hv'].
+              apply wr_plain.
+              rewrite map_app. intros Hi. apply in_app_or in Hi as [Hi|Hi]; [apply (Hwq var (or_introl eq_refl)); exact Hi|exact (Hrestq Hi)].
+            + exists (a ++ [(v_qname var, [])]). cbn [app]. rewrite <- app_assoc. cbn [app]. split.
+              * apply wr_wrapped; [exact Ew|exact Hne|apply (Hwq var (or_introl eq_refl))].
+              * intros v Hv' Hi. rewrite map_app in Hi. apply in_app_or in Hi as [Hi|[Hi|[]]].
+                -- apply (Hwq v (or_intror Hv')). exact Hi.
+                -- cbn [fst] in Hi. apply Hnqi. rewrite Hi. apply in_map. exact Hv'.
+          - exists a. cbn [app]. split; [|intros v Hv'; apply Hwq; right; exact Hv'].
+            apply wr_plain.
+            rewrite map_app. intros Hi. apply in_app_or in Hi as [Hi|Hi]; [apply (Hwq var (or_introl eq_refl)); exact Hi|exact (Hrestq Hi)]. }
+        destruct Hstep as [a' [Hwrf Ha']].
+        rewrite (bind_objects_var var (F var) _ p _ _ [] Hv (Hfr var (or_introl eq_refl)) Hone Hwrf).
         rewrite IHv.
         + rewrite <- app_assoc. reflexivity.
-        + intros v Hv. apply Hall. right; exact Hv.
+        + intros v Hv'. apply Hall. right; exact Hv'.
         + exact Hnd'.
-        + intros v Hv Hi. rewrite map_app in Hi. apply in_app_or in Hi as [Hi|Hi].
-          * apply (Hfr v (or_intror Hv)). exact Hi.
+        + exact Hnq'.
+        + intros v Hv' Hi. rewrite map_app in Hi. apply in_app_or in Hi as [Hi|Hi].
+          * apply (Hfr v (or_intror Hv')). exact Hi.
           * unfold eentry in Hi. destruct (occ var (F var)); [destruct Hi|]. destruct Hi as [Hi|[]]. cbn [fst] in Hi.
-            apply Hni. rewrite Hi. apply in_map. exact Hv.
+            apply Hni. rewrite Hi. apply in_map. exact Hv'.
+        + exact Ha'.
     Qed.
 
     (* ---------------------------------------------------------------- the end of the element *)
@@ -1098,29 +1341,44 @@ Section Main.
     Qed.
 
     (* complex content: all element fields *)
+    Lemma evars_qnames_nodup : m_text m = None -> NoDup (map v_qname evars).
+    Proof.
+      intros Htx. destruct (wf_class_inv m Hwc) as [F1 F2 F3 F4 F5 F6 F7 F8 F9 F10 F11 F12 F13].
+      unfold evars. rewrite (evars_eq m Hwc), Htx, app_nil_r. apply sort_nodup_map.
+      clear -F7 F8. induction (m_elements m) as [|[k vs] r IHr]; [constructor|].
+      cbn [forallb fst snd map] in *. apply andb_true_iff in F7 as [Hk Hr]. inversion F8 as [|? ? Hn Hd]; subst.
+      destruct vs as [|v [|? ?]]; try discriminate Hk. apply andb_true_iff in Hk as [Hq _]. apply str_eqb_eq in Hq.
+      cbn [flat_map app map]. constructor; [|apply IHr; assumption].
+      rewrite Hq. intros Hi. apply Hn. apply in_map_iff in Hi as [v' [Ev Hv']]. apply in_flat_map in Hv' as [[k' vs'] [He Hv']].
+      rewrite forallb_forall in Hr. specialize (Hr _ He). cbn [fst snd] in Hr, Hv'.
+      destruct vs' as [|v2 [|? ?]]; try discriminate Hr. destruct Hv' as [->|[]]. apply andb_true_iff in Hr as [Hq2 _].
+      apply str_eqb_eq in Hq2. rewrite <- Ev, Hq2. apply in_map_iff. exists (k', [v']). split; [reflexivity|exact He].
+    Qed.
+
     Lemma end_complex asg q text tail Q objs W :
       m_text m = None -> pos0 = length objs -> reads_attrs eats attrs0 -> blank_o tail = true ->
-      pstep (mk_pstate (NElement (enW asg) :: Q) (objs ++ flat_map (fun var => tagged var (F var)) evars) W) (PEnd q text tail)
+      pstep (mk_pstate (NElement (enW asg (flat_map wentry evars)) :: Q) (objs ++ flat_map (fun var => tagged var (F var)) evars) W) (PEnd q text tail)
       = ROk (mk_pstate Q (objs ++ [(Some q, VObj cl fs)]) W).
     Proof.
       intros Htx Hpos Hra Htl.
       destruct (wf_class_inv m Hwc) as [F1 F2 F3 F4 F5 F6 F7 F8 F9 F10 F11 F12 F13].
       assert (Hev : forall var, In var evars -> is_elem_var var).
       { intros var Hv. destruct (wf_class_evar m var Hwc Hv) as [[Hw Hi]|[Ht _]]; [split; assumption|congruence]. }
-      destruct (bind_attrs_ok (enW asg) attrs0 eq_refl eq_refl Hra) as [pa [Hba [Hnd [Hin Habs]]]].
+      destruct (bind_attrs_ok (enW asg (flat_map wentry evars)) attrs0 eq_refl eq_refl Hra) as [pa [Hba [Hnd [Hin Habs]]]].
       destruct evars_names_nodup as [Hnn Hni].
       cbn [Parser.step pend st_queue st_objects st_warn]. unfold element_bind.
-      change (xsi_nil_true (enW asg)) with false. cbn [negb orb].
+      change (xsi_nil_true (enW asg (flat_map wentry evars))) with false. cbn [negb orb].
       rewrite Hba. cbn [rbind fst snd].
-      unfold bind_content. change (en_meta (enW asg)) with m. unfold find_any_wildcard. rewrite F2. cbn [hd_error].
-      change (en_position (enW asg)) with pos0. change (en_wrappers (enW asg)) with (@nil (qname * list qname)).
+      unfold bind_content. change (en_meta (enW asg (flat_map wentry evars))) with m. unfold find_any_wildcard. rewrite F2. cbn [hd_error].
+      change (en_position (enW asg (flat_map wentry evars))) with pos0. change (en_wrappers (enW asg (flat_map wentry evars))) with ([] ++ flat_map wentry evars).
       rewrite Hpos, skipn_app_len, firstn_app_len.
-      rewrite (bind_objects_vars evars pa Hev Hnn).
+      rewrite (bind_objects_vars evars pa [] Hev Hnn (evars_qnames_nodup Htx)).
+      3:{ intros var _ []. }
       2:{ intros var Hv Hi. apply in_map_iff in Hi as [[k pv] [Ek Hk]]. cbn [fst] in Ek. subst k.
           destruct (Hin _ _ Hk) as [va [Hva [En _]]]. apply (avar_evar_disjoint va var Hva Hv). symmetry. exact En. }
-      cbn [rbind fst snd]. unfold bind_text. change (en_meta (enW asg)) with m. rewrite Htx. cbn [rbind app].
+      cbn [rbind fst snd]. unfold bind_text. change (en_meta (enW asg (flat_map wentry evars))) with m. rewrite Htx. cbn [rbind app].
       rewrite (class_factory_ok (pa ++ flat_map (fun var => eentry var (F var)) evars)).
-      - cbn [rbind]. change (en_derived (enW asg)) with false. cbn iota.
+      - cbn [rbind]. change (en_derived (enW asg (flat_map wentry evars))) with false. cbn iota.
         unfold append_tail. rewrite (normalize_blank tail Htl).
         unfold finish_end. cbn [rbind fst snd st_warn]. rewrite app_nil_r. reflexivity.
       - (* distinct keys *)
@@ -1189,10 +1447,10 @@ Section Main.
       text_of tv = match y_text (v_format tv) (F tv) with [] => None | s0 => Some s0 end.
     Proof. intros Hs. unfold text_of. inversion Hs as [p Hp E|tp l Hl E]; reflexivity. Qed.
 
-    Lemma end_simple tv asg q tail Q objs W :
+    Lemma end_simple tv asg wr q tail Q objs W :
       m_text m = Some tv -> fits_text tv (F tv) = true ->
       pos0 = length objs -> reads_attrs eats attrs0 -> blank_o tail = true ->
-      pstep (mk_pstate (NElement (enW asg) :: Q) objs W) (PEnd q (text_of tv) tail)
+      pstep (mk_pstate (NElement (enW asg wr) :: Q) objs W) (PEnd q (text_of tv) tail)
       = ROk (mk_pstate Q (objs ++ [(Some q, VObj cl fs)]) W).
     Proof.
       intros Htx Hft Hpos Hra Htl.
@@ -1202,7 +1460,7 @@ Section Main.
       { unfold evars. rewrite (evars_eq m Hwc), Hnoe, Htx. reflexivity. }
       assert (Htv : In tv evars) by (rewrite Hevars; left; reflexivity).
       destruct (wf_text_inv tv Hwt) as [_ [Hcm _]]. destruct (var_common_inv tv Hcm) as [Hinit _].
-      destruct (bind_attrs_ok (enW asg) attrs0 eq_refl eq_refl Hra) as [pa [Hba [Hnd [Hin Habs]]]].
+      destruct (bind_attrs_ok (enW asg wr) attrs0 eq_refl eq_refl Hra) as [pa [Hba [Hnd [Hin Habs]]]].
       assert (Hfresh : ~ In (v_name tv) (map fst pa)).
       { intros Hi. apply in_map_iff in Hi as [[k pv] [Ek Hk]]. cbn [fst] in Ek. subst k.
         destruct (Hin _ _ Hk) as [va [Hva [En _]]]. apply (avar_evar_disjoint va tv Hva Htv). symmetry. exact En. }
@@ -1212,13 +1470,13 @@ Section Main.
           destruct (var_common_inv var Hc) as [Hi _]. exact Hi.
         - rewrite Hevars in He. destruct He as [<-|[]]. exact Hinit. }
       cbn [Parser.step pend st_queue st_objects st_warn]. unfold element_bind.
-      change (xsi_nil_true (enW asg)) with false. cbn [negb orb].
+      change (xsi_nil_true (enW asg wr)) with false. cbn [negb orb].
       rewrite Hba. cbn [rbind fst snd].
-      unfold bind_content. change (en_meta (enW asg)) with m. unfold find_any_wildcard. rewrite F2. cbn [hd_error].
-      change (en_position (enW asg)) with pos0. change (en_wrappers (enW asg)) with (@nil (qname * list qname)).
+      unfold bind_content. change (en_meta (enW asg wr)) with m. unfold find_any_wildcard. rewrite F2. cbn [hd_error].
+      change (en_position (enW asg wr)) with pos0. change (en_wrappers (enW asg wr)) with wr.
       rewrite Hpos, skipn_all, firstn_all. cbn [bind_objects_loop rbind fst snd].
-      unfold bind_text. change (en_meta (enW asg)) with m. rewrite Htx.
-      change (xsi_nil_true (enW asg)) with false. cbn [negb andb].
+      unfold bind_text. change (en_meta (enW asg wr)) with m. rewrite Htx.
+      change (xsi_nil_true (enW asg wr)) with false. cbn [negb andb].
       assert (Hfin : forall p1,
                 class_factory cfg m (evaluate p1) = ROk (VObj cl fs) ->
                 (do obj <- class_factory cfg m (evaluate p1);
@@ -1228,7 +1486,7 @@ Section Main.
       - (* no text *)
         unfold text_of. rewrite Ex. cbn [is_some negb andb rbind app].
         rewrite (class_factory_ok pa Hnd).
-        + cbn [rbind]. change (en_derived (enW asg)) with false. cbn iota.
+        + cbn [rbind]. change (en_derived (enW asg wr)) with false. cbn iota.
           unfold append_tail. rewrite (normalize_blank tail Htl).
           unfold finish_end. cbn [rbind fst snd st_warn]. rewrite app_nil_r. reflexivity.
         + intros k pv Hk. destruct (Hin _ _ Hk) as [va [Hva [En Hpv]]]. exists va. split; [apply avar_all; exact Hva|].
@@ -1241,7 +1499,7 @@ Section Main.
         + (* empty token list *)
           cbn [is_some negb andb rbind app].
           rewrite (class_factory_ok pa Hnd).
-          * cbn [rbind]. change (en_derived (enW asg)) with false. cbn iota.
+          * cbn [rbind]. change (en_derived (enW asg wr)) with false. cbn iota.
             unfold append_tail. rewrite (normalize_blank tail Htl).
             unfold finish_end. cbn [rbind fst snd st_warn]. rewrite app_nil_r. reflexivity.
           * intros k pv Hk. destruct (Hin _ _ Hk) as [va [Hva [En Hpv]]]. exists va. split; [apply avar_all; exact Hva|].
@@ -1250,14 +1508,14 @@ Section Main.
             rewrite Hevars in He. destruct He as [<-|[]]. apply Hdef. reflexivity.
           * exact Hinits.
         + cbn [is_some negb andb truthy_str].
-          change (en_ns (enW asg)) with ns0.
+          change (en_ns (enW asg wr)) with ns0.
           set (pv := parse_var _ _ _ _ _ _ _ _).
           assert (Hpv : pv = ROk (F tv, [])).
           { unfold pv. rewrite <- Ey. apply (parse_var_text m tv t (F tv) ns0 Ht Hs Htk). }
           rewrite Hpv. clear pv Hpv. cbn [rbind]. rewrite Hinit. cbn [rbind app].
           rewrite (pset_fresh _ _ _ Hfresh).
           rewrite (class_factory_ok (pa ++ [(v_name tv, PV (F tv))])).
-          * cbn [rbind]. change (en_derived (enW asg)) with false. cbn iota.
+          * cbn [rbind]. change (en_derived (enW asg wr)) with false. cbn iota.
             unfold append_tail. rewrite (normalize_blank tail Htl).
             unfold finish_end. cbn [rbind fst snd st_warn]. rewrite app_nil_r. reflexivity.
           * rewrite map_app. apply NoDup_app_intro; [exact Hnd|constructor; [intros []|constructor]|].
@@ -1272,41 +1530,10 @@ Section Main.
           * exact Hinits.
     Qed.
 
-    Lemma ienode_elem var y : is_elem_var var -> item_ok var y ->
-      exists q a k, ienode var y = EElem q a k.
-    Proof.
-      intros Hv Hok. pose proof Hv as [Hw Hin]. unfold ienode, item_ok in *.
-      destruct (v_tokens_factory var) as [tf|] eqn:Etf; [unfold RoundtripGen.e_prim; eauto|].
-      destruct (wf_elem_inv var Hw) as [_ [_ [[k [Hty [Hcl _]]]|[t [Hty [Hst _]]]]]].
-      - destruct (fits_item_class c u ok _ var k y Hty Hok) as [cl' [fs' [-> Hfk]]].
-        cbn [RoundtripGen.e_item]. destruct n as [|n']; [discriminate Hfk|].
-        destruct (fits_inv c u ok py_isspace n' k _ Hfk) as [fs'' [mk [E [Hmk _]]]]. inversion E; subst.
-        cbn [RoundtripGen.eobj]. rewrite Hmk. eauto.
-      - destruct (fits_item_simple c u ok _ var t y Hty Hst Hok) as [p [-> _]].
-        cbn [RoundtripGen.e_item]. unfold RoundtripGen.e_prim. eauto.
-    Qed.
   End Obj.
 
-  Lemma reads_content_elems ekids text kes :
-    (forall e, In e ekids -> exists q a k, e = EElem q a k) ->
-    match ekids with
-    | [] => text = None /\ kes = []
-    | [EData atoms] => exists s, atoms_text atoms = Some s /\ s <> [] /\ text = Some s /\ kes = []
-    | _ =>
-        blank_o text = true
-        /\ (fix rk (ks : list XmlNs.enode) (kes : list pevent) {struct ks} : Prop :=
-              match ks with
-              | [] => kes = []
-              | k :: r => exists a b, kes = a ++ b /\ reads k a /\ rk r b
-              end) ekids kes
-    end -> reads_kids ekids kes.
-  Proof.
-    intros Hall H. destruct ekids as [|e1 r]; [destruct H as [_ ->]; reflexivity|].
-    destruct (Hall e1 (or_introl eq_refl)) as [q [a [k ->]]]. destruct H as [_ H]. exact H.
-  Qed.
-
   Lemma reads_text_content rec tv x t text kes :
-    v_is KText tv = true -> vshape t (v_format tv) x ->
+    v_is KText tv = true -> v_wrapper_qname tv = None -> vshape t (v_format tv) x ->
     match e_field rec tv x with
     | [] => text = None /\ kes = []
     | [EData atoms] => exists s, atoms_text atoms = Some s /\ s <> [] /\ text = Some s /\ kes = []
@@ -1320,9 +1547,9 @@ Section Main.
     end ->
     text = match y_text (v_format tv) x with [] => None | s0 => Some s0 end /\ kes = [].
   Proof.
-    intros Hkt Hs Hk. destruct (e_data_spec c u ok t _ x Hs) as [Hd Hat].
+    intros Hkt Hnw Hs Hk. destruct (e_data_spec c u ok t _ x Hs) as [Hd Hat].
     assert (He : e_field rec tv x = e_data (v_format tv) x).
-    { unfold RoundtripGen.e_field. rewrite Hkt. destruct Hs; reflexivity. }
+    { unfold RoundtripGen.e_field, RoundtripGen.e_items, RoundtripGen.e_wrap. rewrite Hkt, Hnw. destruct Hs; reflexivity. }
     rewrite He, Hd in Hk.
     destruct (y_text (v_format tv) x) as [|ch s0].
     - exact Hk.
@@ -1361,23 +1588,29 @@ Section Main.
       { destruct (wf_text_inv tv Hwt) as [Hkt _].
         destruct (text_field_shape fs tv Hwt Hft) as [[Ex _]|[t [Ht [Hs _]]]].
         - unfold text_of. rewrite Ex in *. unfold RoundtripGen.e_field in Hk. exact Hk.
-        - rewrite (text_of_eq fs tv t Hs). apply (reads_text_content (eobj n) tv _ t text kes Hkt Hs Hk). }
+        - rewrite (text_of_eq fs tv t Hs). apply (reads_text_content (eobj n) tv _ t text kes Hkt (wf_text_nowrap tv Hwt) Hs Hk). }
       destruct Htext as [-> ->]. cbn [app].
       apply run_step.
-      apply (end_simple cl fs m Hwc Hmc Hnames Hfa attrs ns (length objs) tv [] (elem_name qn cl) tail Q objs W Htx Hft eq_refl Hra Htl).
+      apply (end_simple cl fs m Hwc Hmc Hnames Hfa attrs ns (length objs) tv [] [] (elem_name qn cl) tail Q objs W Htx Hft eq_refl Hra Htl).
     - (* complex content *)
       assert (Hev : forall var, In var (get_element_vars m) -> is_elem_var m var).
       { intros var Hv. destruct (wf_class_evar m var Hwc Hv) as [[Hw Hi]|[Ht _]]; [split; assumption|congruence]. }
       assert (Hkids : reads_kids (flat_map (fun var => e_field (eobj n) var (field_of fs var)) (get_element_vars m)) kes).
       { apply (reads_content_elems _ text kes); [|exact Hk].
         intros e He. apply in_flat_map in He as [var [Hv He]].
-        rewrite (e_field_occ m n var _ (Hev var Hv)) in He. apply in_map_iff in He as [y [<- Hy]].
-        destruct (elem_field_facts cl fs m Hmc n Hfe var (Hev var Hv)) as [Hall _].
-        rewrite Forall_forall in Hall. apply (ienode_elem fs m n Hfe IH var y (Hev var Hv) (Hall y Hy)). }
+        rewrite (e_field_occ m n var _ (Hev var Hv)) in He.
+        assert (Hitems : In e (map (ienode n var) (occ var (field_of fs var))) -> exists q a k, e = EElem q a k).
+        { intros Hi. apply in_map_iff in Hi as [y [<- Hy]].
+          destruct (elem_field_facts cl fs m Hmc n Hfe var (Hev var Hv)) as [Hall _].
+          rewrite Forall_forall in Hall. apply (ienode_elem fs m n Hfe var y (Hev var Hv) (Hall y Hy)). }
+        destruct (field_of fs var); try destruct He;
+          (unfold RoundtripGen.e_wrap in He; destruct (v_wrapper_qname var) as [[|ch w]|];
+           [apply Hitems; exact He|destruct He as [<-|[]]; eauto|apply Hitems; exact He]). }
       destruct (evars_names_nodup m Hwc) as [_ Hni].
-      destruct (vars_run cl fs m Hwc Hmc n Hfe IH Hnest attrs ns (length objs) (get_element_vars m) kes [] Q objs W
-                  (PEnd (elem_name qn cl) text tail :: rest) Hev Hni (fun _ _ Hi => Hi) Hkids) as [asg' Hrun].
-      unfold enW in Hrun. rewrite Hrun. apply run_step.
+      destruct (vars_run cl fs m Hwc Hmc n Hfe IH Hnest attrs ns (length objs) (get_element_vars m) kes [] [] Q objs W
+                  (PEnd (elem_name qn cl) text tail :: rest) Hev Hni (evars_qnames_nodup m Hwc Htx)
+                  (fun _ _ Hi => Hi) (fun _ _ Hi => Hi) Hkids) as [asg' Hrun].
+      unfold enW in Hrun. rewrite Hrun. apply run_step. cbn [app].
       apply (end_complex cl fs m Hwc Hmc Hnames Hfa n Hfe attrs ns (length objs) asg' (elem_name qn cl) text tail Q objs W Htx eq_refl Hra Htl).
   Qed.
 
